@@ -173,3 +173,101 @@ def items_of_pairs(self, node, st):
 
 
 Engine.ITER_MODELS.append(items_of_pairs)
+
+
+# ---- pympi.Eaf as the list of its tiers (trusted base of C18 X4): eaf.get_tier_names() = the tier names (dict keys: pairwise distinct),
+#      eaf.get_annotation_data_for_tier(name) = the (start, end, value) triples of the tier of that name
+TRUSTED_EAF = ("model:pympi.Eaf(path) = a mapping tier name -> list of (start, end, value) annotations; get_tier_names() its keys (distinct), "
+               "get_annotation_data_for_tier(name) the list stored under a key (the ELAN parser, time alignment and reference tiers are "
+               "outside the model)")
+
+
+def eaf_model(self, e, st, spec):
+    import ast as _ast
+    from ..vals import SList, Lifted
+    name = _ast.unparse(e.func)
+    if name == "Eaf" and len(e.args) == 1 and not spec:
+        self.ev(e.args[0], st, spec)
+        self.used_models.add(TRUSTED_EAF)
+        triple = V.Tup([V.fresh("st", V.R), V.fresh("en", V.R), V.fresh("val", V.R)])
+        data = SList(V.fresh("nann", V.I), Lifted.fresh(triple, "anns"))
+        tiers = SList(V.fresh("ntiers", V.I), Lifted.fresh(V.Tup([V.fresh("tname", V.R), data]), "eaf"))
+        idx = z3.Function(V.fresh_name("tier_index"), V.R, V.I)
+        k = V.fresh("k", V.I)
+        st.assume(tiers.length >= 0,
+                  z3.ForAll(k, z3.Implies(z3.And(0 <= k, k < tiers.length),
+                                          z3.And(idx(tiers.get(k).items[0]) == k, tiers.get(k).items[1].length >= 0)), patterns=[tiers.get(k).items[0]]))
+        return Rec("Eaf", {"tiers": tiers, "idx": V.Func(idx, name="tier_index")})
+    if isinstance(e.func, _ast.Attribute) and e.func.attr in ("get_tier_names", "get_annotation_data_for_tier") and not spec:
+        recv = self.ev(e.func.value, st, spec)
+        if isinstance(recv, Rec) and recv.cls == "Eaf":
+            tiers = recv.fields["tiers"]
+            self.used_models.add(TRUSTED_EAF)
+            if e.func.attr == "get_tier_names":
+                tmpl = tiers.get(z3.IntVal(0)).items[0]
+                names = Lifted.fresh(tmpl, "tier_names")
+                k = V.fresh("k", V.I)
+                st.assume(z3.ForAll(k, names.select(k) == tiers.get(k).items[0], patterns=[names.select(k)]))
+                return SList(tiers.length, names)
+            nm = to_real(self.ev(e.args[0], st, spec))
+            i = recv.fields["idx"].decl(nm)
+            # KeyError for a name that is not a tier: the modelled callers only pass names taken from get_tier_names()
+            self.oblige(st, z3.And(0 <= i, i < tiers.length, tiers.get(i).items[0] == nm), f"tier-exists@{e.lineno}", "exception-freedom", e.lineno,
+                        "the name is one of the file's tiers")
+            return tiers.get(i).items[1]
+    return NotImplemented
+
+
+Engine.MODELS.append(eaf_model)
+
+
+# ---- textgrid.TextGrid as the list of its interval tiers (trusted base of C18 X3): tg.getNames() = the tier names in file order (possibly
+#      repeated), tg.getFirst(name) = the first tier of that name, iterating a tier = its intervals (minTime, maxTime, mark);
+#      an empty mark is modelled as None (so `if not interval.mark` is exactly "the mark is empty")
+TRUSTED_TG = ("model:textgrid.TextGrid.fromFile(path) = a list of interval tiers (name, intervals); getNames() their names in order, "
+              "getFirst(name) the first tier of that name, a tier iterates over its intervals (minTime, maxTime, mark); the empty mark is "
+              "modelled as None (the TextGrid parser and point tiers are outside the model)")
+
+
+def textgrid_model(self, e, st, spec):
+    import ast as _ast
+    from ..vals import SList, Lifted
+    name = _ast.unparse(e.func)
+    if name == "TextGrid.fromFile" and len(e.args) == 1 and not spec:
+        arg = e.args[0]
+        if isinstance(arg, _ast.Call) and _ast.unparse(arg.func) == "str" and len(arg.args) == 1:
+            arg = arg.args[0]
+        self.ev(arg, st, spec)
+        self.used_models.add(TRUSTED_TG)
+        interval = Rec("Interval", {"minTime": V.fresh("mn", V.R), "maxTime": V.fresh("mx", V.R),
+                                    "mark": Opt(V.fresh("nomark", V.B), V.fresh("mark", V.R))})
+        ivs = SList(V.fresh("niv", V.I), Lifted.fresh(interval, "ivs"))
+        tiers = SList(V.fresh("ntiers", V.I), Lifted.fresh(V.Tup([V.fresh("tname", V.R), ivs]), "tg"))
+        first = z3.Function(V.fresh_name("first_tier"), V.R, V.I)
+        k = V.fresh("k", V.I)
+        st.assume(tiers.length >= 0,
+                  z3.ForAll(k, z3.Implies(z3.And(0 <= k, k < tiers.length),
+                                          z3.And(0 <= first(tiers.get(k).items[0]), first(tiers.get(k).items[0]) <= k,
+                                                 tiers.get(first(tiers.get(k).items[0])).items[0] == tiers.get(k).items[0],
+                                                 tiers.get(k).items[1].length >= 0)), patterns=[tiers.get(k).items[0]]))
+        return Rec("TextGrid", {"tiers": tiers, "first": V.Func(first, name="first_tier")})
+    if isinstance(e.func, _ast.Attribute) and e.func.attr in ("getNames", "getFirst") and not spec:
+        recv = self.ev(e.func.value, st, spec)
+        if isinstance(recv, Rec) and recv.cls == "TextGrid":
+            tiers = recv.fields["tiers"]
+            self.used_models.add(TRUSTED_TG)
+            if e.func.attr == "getNames":
+                tmpl = tiers.get(z3.IntVal(0)).items[0]
+                names = Lifted.fresh(tmpl, "tg_names")
+                k = V.fresh("k", V.I)
+                st.assume(z3.ForAll(k, names.select(k) == tiers.get(k).items[0], patterns=[names.select(k)]))
+                return SList(tiers.length, names)
+            nm = to_real(self.ev(e.args[0], st, spec))
+            i = recv.fields["first"].decl(nm)
+            self.oblige(st, z3.And(0 <= i, i < tiers.length, tiers.get(i).items[0] == nm), f"tier-exists@{e.lineno}", "exception-freedom", e.lineno,
+                        "the name is one of the file's tiers")
+            return tiers.get(i).items[1]
+    return NotImplemented
+
+
+Engine.MODELS.append(textgrid_model)
